@@ -106,8 +106,8 @@ def gen_case(rng, params, idx):
 
 def _gen_method(rng, mid):
     kind = rng.choice(["walk_list", "map_list", "deep_list", "nest_list", "walk_tuple", "leaf", "leaf", "leaf", "wrap", "self_list",
-                       "ondemand"])
-    t = {"walk_list": "list", "map_list": "list", "deep_list": "list", "nest_list": "list", "self_list": "list", "walk_tuple": "tuple",
+                       "ondemand", "acc_list"])
+    t = {"walk_list": "list", "acc_list": "list", "map_list": "list", "deep_list": "list", "nest_list": "list", "self_list": "list", "walk_tuple": "tuple",
          "wrap": "dict", "ondemand": "list"}.get(kind)
     if t is None:
         t = rng.choice(["int", "str", "float", "bytes", "bool", "object", "object", "type[int]", "type[object]"])
@@ -133,7 +133,7 @@ def check_case(spec, res):
     # structure facts for the evidence
     def depth(n):
         return 0 if not n.parents else 1 + max(depth(p) for p in n.parents)
-    walkers = {"walk_list", "map_list", "deep_list", "nest_list", "walk_tuple", "wrap", "self_list", "ondemand"}
+    walkers = {"walk_list", "acc_list", "map_list", "deep_list", "nest_list", "walk_tuple", "wrap", "self_list", "ondemand"}
     nontrivial = False
     for n in g.nodes:
         inh = {}
